@@ -5,7 +5,7 @@ import numpy as np
 
 ID = "C10"
 PROPS_FILE = "theories/Props/C10.v"
-EXTRACT = ("theories/Extract/XC10.v", "c10", ["entry_emd", "entry_emdc", "entry_emdl", "entry_emdlf", "entry_asis", "entry_cert", "entry_partial", "entry_brute"])
+EXTRACT = ("theories/Extract/XC10.v", "c10", ["entry_emd", "entry_emdc", "entry_emdl", "entry_emdlf", "entry_asis", "entry_w32", "entry_cert", "entry_partial", "entry_brute"])
 PYX = {"_fastemd.pyx": ["emd_hat_int32"]}
 RULE = ("one case = one instance (p, q, c, penalty|None) plus an encoding; the implementation is called through "
         "centrosome.fastemd for all variants: flow type NO_FLOW / WITHOUT_TRANSHIPMENT_FLOW / WITHOUT_EXTRA_MASS_FLOW x gd_metric "
@@ -15,7 +15,7 @@ RULE = ("one case = one instance (p, q, c, penalty|None) plus an encoding; the i
         "int, NumPy int32/int64 or float; keyword or positional call; the arguments must come back unmodified. Shapes 1..7 "
         "(thorough ..12, some ..25), 40% unequal lengths, plus a shape-extreme class (length-1 histograms, 1-2 bins against "
         "up to 20, one side all zero, ties / zeros / upper-triangular asymmetric distances, penalty 0 and penalty < max C); "
-        "an INT_MAX class (max(C) = 2^31-1 and its neighbour 2^31-2 between empty or occupied bins, with and without regular arcs; each case in a forked process with a 5 s limit); an isolated-bin class (a non-empty bin at distance max C from every non-empty bin of the other histogram, with explicit penalties 0 .. max C - 1); masses 0..50 with many zeros, equal-mass (permuted / rebalanced) and unequal-mass; a near-bound class scaled so that "
+        "a large-magnitude class (costs and masses in 2^29..2^31-1 mixed with small ones, 1..3 bins) and the zero-length instance, both fork-isolated; an INT_MAX class (max(C) = 2^31-1 and its neighbour 2^31-2 between empty or occupied bins, with and without regular arcs; each case in a forked process with a 5 s limit); an isolated-bin class (a non-empty bin at distance max C from every non-empty bin of the other histogram, with explicit penalties 0 .. max C - 1); masses 0..50 with many zeros, equal-mass (permuted / rebalanced) and unequal-mass; a near-bound class scaled so that "
         "max(sum P,sum Q)*max C + |sum P - sum Q|*penalty lies in [0.5,1)*2^31 (huge masses or huge distances); ground "
         "distances: |i-j|, thresholded |i-j|, 2-D grid L1, shortest-path closure of a random graph (metrics), symmetric "
         "non-metric, arbitrary, constant, all-zero, 'many entries equal to max' (node removal and pre_flow_cost); penalty "
@@ -29,7 +29,7 @@ TRUSTED = ["min_cost_flow.hpp is modelled twice: at algorithm level (successive 
            "checker emd_cert_ok verifies it",
            "NumPy int32 conversion of the arguments in the wrapper (np.ascontiguousarray)"]
 ASSUMPTIONS = ["no int32 overflow: sum(P)*max(C) + |sum P - sum Q|*penalty < 2^31 (generator bound, stated)",
-               "histograms are non-empty (len 0 makes the wrapper read vf[0] of an empty vector: outside the property's domain)",
+               "zero-length histograms are accepted by the wrapper (NO_FLOW returns 0): the crash with a flow type is known finding F26",
                "explicit penalties are >= 0 (the value -1 is the C++ sentinel for 'default')",
                "gd_metric=True is only claimed for ground distances that are restrictions of a metric with zero diagonal"]
 CASE_TIMEOUT = 60
@@ -365,6 +365,31 @@ def generate(ctx):
         c.update({"pen": 0 if rng.rand() < 0.5 else None, "metric": False, "kind": "intmax" if mxc == M else "intmax-1",
                   "tiny": False, "intmax": True})
     cases.extend(im)
+    # large magnitudes (finding family F25: int32 intermediates overflow although inputs and result fit): costs and
+    # masses in 2^29 .. 2^31-1 mixed with small ones, 1..3 bins, fork-isolated with a timeout
+    A = 2 ** 30
+    big = [{"p": [1, 2], "q": [1, 1], "c": [[1, 1], [A, A + 1]], "pen": 0}, {"p": [1, 2], "q": [1, 1], "c": [[1, 1], [A - 1, A]], "pen": 0},
+           {"p": [1, 1], "q": [1, 1], "c": [[10 ** 9, 2 * 10 ** 9], [10 ** 9, 10 ** 9]], "pen": None},
+           {"p": [1], "q": [A, A], "c": [[0, 1]], "pen": 0}, {"p": [A, A], "q": [A, A - 1], "c": [[0, 1], [1, 0]], "pen": None},
+           {"p": [A - 1, 5], "q": [7, A - 3], "c": [[0, 1], [1, 0]], "pen": 0}]
+    def _mag():
+        return int(rng.choice([int(rng.randint(0, 4)), int(rng.randint(2 ** 29, 2 ** 31 - 1)), 2 ** 30, 2 ** 31 - 1, 2 ** 29]))
+    for _ in range(ctx.n(10, 60)):
+        n = int(rng.randint(1, 4)); m = int(rng.randint(1, 4))
+        if rng.rand() < 0.5:      # big costs, unit masses
+            C = [[_mag() for _ in range(m)] for _ in range(n)]
+            P = [int(x) for x in rng.randint(0, 3, n)]; Q = [int(x) for x in rng.randint(0, 3, m)]
+        else:                     # big masses, small costs
+            C = [[int(x) for x in r] for r in rng.randint(0, 3, (n, m))]
+            P = [_mag() for _ in range(n)]; Q = [_mag() for _ in range(m)]
+        if sum(P) == 0: P[0] = 1
+        if sum(Q) == 0: Q[0] = 1
+        big.append({"p": P, "q": Q, "c": C, "pen": 0 if rng.rand() < 0.6 else None})
+    for c in big:
+        c.update({"metric": False, "kind": "large-magnitude", "tiny": False, "fork": True})
+    cases.extend(big)
+    # zero-length histograms (accepted by the wrapper: NO_FLOW returns 0; with a flow type it reads vf[0]: finding F26)
+    cases.append({"p": [], "q": [], "c": [], "pen": None, "metric": False, "kind": "empty", "tiny": False, "fork": True})
     for c in cases:
         ctx.count("kind:" + c.get("kind", "?"))
         ctx.count("shape:%s" % ("equal" if len(c["p"]) == len(c["q"]) else "unequal"))
@@ -413,7 +438,7 @@ FORK_TIMEOUT = 5
 
 
 def impl(case):
-    if case.get("intmax") and not os.environ.get("C10_NO_FORK"):
+    if (case.get("intmax") or case.get("fork")) and not os.environ.get("C10_NO_FORK"):
         # fork-isolated with a short timeout: the call may never return (finding F21)
         import subprocess, sys
         env = dict(os.environ); env["C10_NO_FORK"] = "1"
@@ -506,8 +531,8 @@ def model(ctx, cases, outs):
     """Per case: the certified model's (dist, F) for every variant.  entry_emdc only answers when its own full flow
     passed emd_cert_ok inside the model (theorem C10_model_emd_correct), so no separate check of the model's flow."""
     ms = _run_models(ctx, cases)
-    f21 = _f21_verdicts(ctx, cases, outs, ms)
-    return [{"r": m, "cert": True, "ll": l, "f21": v} for m, l, v in zip(ms, _run_models.ll, f21)]
+    kv = _known_verdicts(ctx, cases, outs, dict(enumerate(ms)))
+    return [{"r": m, "cert": True, "ll": l, "known": v} for m, l, v in zip(ms, _run_models.ll, kv)]
 
 
 INT_MAX = 2 ** 31 - 1
@@ -517,23 +542,64 @@ def _max_c(case):
     return max([0] + [int(x) for r in case["c"] for x in r])
 
 
-def _f21_verdicts(ctx, cases, outs, ms=None):
-    """Attribution of a hang to finding F21, by the models: max(C) == 2^31-1, the AS-WRITTEN model (artificial arc cost
-    wrap32(maxC+1)) does not finish its bounded flagged run, raises the companion flag and moves no supply, and the EXACT
-    certified model returns an answer for every variant (the property holds for it)."""
-    idx = [k for k, (c, o) in enumerate(zip(cases, outs)) if isinstance(o, dict) and "hang" in o and _max_c(c) == INT_MAX]
-    res = [False] * len(cases)
+def _known_verdicts(ctx, cases, outs, ms=None):
+    """Attribution of a failure to a KNOWN finding, by call site (F26) or by the models (F21, F25); None = not attributed.
+    F26: len(p) == len(q) == 0 and the process died.  F21: hang, max(C) == 2^31-1, the as-written probe does not finish,
+    raises the companion flag and moves no supply.  F25 (int32 intermediate overflow although inputs and result fit int32):
+    the AS-WRITTEN model (Model.EmdW with wrap32 on every int operation) differs from the exact model on this input - which
+    by C10_no_wrap_below_bound needs an intermediate of magnitude >= 2^31 - and, when the implementation returned values,
+    reproduces the implementation's distance and flow on every variant (when it hung: the as-written run does not finish).
+    'OOD': the exact distance itself is not representable in int32 (outside the property).  The exact certified model
+    must answer every variant in all cases."""
+    res = [None] * len(cases)
+    idx = []
+    for k, (c, o) in enumerate(zip(cases, outs)):
+        if not isinstance(o, dict):
+            continue
+        if len(c["p"]) == 0 and len(c["q"]) == 0:
+            if "crash" in o:
+                res[k] = "F26"
+            continue
+        if "hang" in o or (c.get("fork") or c.get("intmax")):
+            idx.append(k)
     if not idx:
         return res
-    probe = ctx.run_model("entry_asis", [[cases[k]["p"], cases[k]["q"], cases[k]["c"],
-                                          [] if cases[k]["pen"] is None else [cases[k]["pen"]]] for k in idx])
     if ms is None:
-        ms = _run_models(ctx, [cases[k] for k in idx])
-        ms = dict(zip(idx, ms))
-    for k, pr in zip(idx, probe):
-        exact = ms[k]
-        ok_exact = all(isinstance(r, list) and len(r) == 2 for r in exact) and len(exact) == len(_variants(cases[k]))
-        res[k] = bool(pr == [0, 1, 1] and ok_exact)
+        ms = dict(zip(idx, _run_models(ctx, [cases[k] for k in idx])))
+    wargs, where = [], []
+    for k in idx:
+        for g, f in _variants(cases[k]):
+            wargs.append(_margs(cases[k], g, f)); where.append(k)
+    w32 = {k: [] for k in idx}
+    for k, r in zip(where, ctx.run_model("entry_w32", wargs)):
+        w32[k].append(r)
+    hangs = [k for k in idx if "hang" in outs[k] and _max_c(cases[k]) == INT_MAX]
+    probe = dict(zip(hangs, ctx.run_model("entry_asis", [[cases[k]["p"], cases[k]["q"], cases[k]["c"],
+                     [] if cases[k]["pen"] is None else [cases[k]["pen"]]] for k in hangs]))) if hangs else {}
+    for k in idx:
+        c, o, exact = cases[k], outs[k], ms[k]
+        vs = _variants(c)
+        ok_exact = len(exact) == len(vs) and all(isinstance(r, list) and len(r) == 2 for r in exact)
+        if not ok_exact:
+            continue
+        if any(abs(r[0]) > INT_MAX for r in exact):
+            res[k] = "OOD"
+            continue
+        ws = w32[k]
+        if "hang" in o:
+            if probe.get(k) == [0, 1, 1]:
+                res[k] = "F21"
+            elif any(isinstance(r, list) and r and r[0] != 0 for r in ws):
+                res[k] = "F25"
+            continue
+        if "v" not in o or len(o["v"]) != len(vs):
+            continue
+        impl = [[v[2], v[3] if v[1] else []] for v in o["v"]]
+        if impl == [[r[0], r[1] if f else []] for (g, f), r in zip(vs, exact)]:
+            continue                       # nothing to attribute: the implementation agrees with the exact model
+        asw = [[r[1], r[2]] if (isinstance(r, list) and len(r) == 3 and r[0] == 0) else None for r in ws]
+        if asw == impl:
+            res[k] = "F25"
     return res
 
 
@@ -542,9 +608,9 @@ def _shape_ok(c, F):
 
 
 def compare(case, out, mo):
+    if mo.get("known"):
+        return None          # explained by a known finding (or outside int32): the failure itself is reported by check()
     if isinstance(out, dict) and "hang" in out:
-        if mo.get("f21"):
-            return None      # behaves as the AS-WRITTEN model (finding F21); the failure itself is reported by check()
         return "implementation did not return in %s s and the as-written model does not explain it" % out["hang"]
     if _bad(out):
         return "implementation raised/crashed: %s" % (str(out)[:300],)
@@ -628,9 +694,25 @@ def check(ctx, cases, outs):
     cert_args, cert_where = [], []
     part_args, part_where = [], []
     brute_args, brute_where = [], []
+    kv = _known_verdicts(ctx, cases, outs)
     for k, (c, o) in enumerate(zip(cases, outs)):
+        if kv[k] == "OOD":
+            continue
+        if kv[k]:
+            if "hang" in o:
+                res[k] = "implementation did not return in %s s on a valid input (max(C) = %d)" % (o["hang"], _max_c(c))
+            elif "crash" in o:
+                res[k] = "implementation crashed on zero-length histograms with a flow type that returns a flow"
+            else:
+                res[k] = "implementation returns a wrong value / flow although inputs and result fit int32: %s" % (
+                    ", ".join("gd=%d/ft=%d -> %d" % (v[0], v[1], v[2]) for v in o["v"]),)
+            continue
         if isinstance(o, dict) and "hang" in o:
             res[k] = "implementation did not return in %s s on a valid input (max(C) = %d)" % (o["hang"], _max_c(c))
+            continue
+        if len(c["p"]) == 0 and len(c["q"]) == 0 and not _bad(o):
+            if any(v[2] != 0 for v in o["v"]):
+                res[k] = "distance of two empty histograms is not 0"
             continue
         if _bad(o):
             res[k] = "implementation raised/crashed on a valid input: %s" % (str(o)[:300],)
@@ -677,16 +759,13 @@ def check(ctx, cases, outs):
 
 
 def attribute(ctx, case, out, clause):
-    if isinstance(out, dict) and "hang" in out and _f21_verdicts(ctx, [case], [out])[0]:
-        return "F21"
-    return None
+    v = _known_verdicts(ctx, [case], [out])[0]
+    return v if v in ("F21", "F25", "F26") else None
 
 
 def reproduce_finding(ctx, finding):
-    if finding.get("id") != "F21":
-        return False
     out = ctx.run_impl([finding["witness"]])[0]
-    return bool(isinstance(out, dict) and "hang" in out and _f21_verdicts(ctx, [finding["witness"]], [out])[0])
+    return _known_verdicts(ctx, [finding["witness"]], [out])[0] == finding.get("id")
 
 
 def nontrivial(case, out):
@@ -792,7 +871,7 @@ def shrink_candidates(case):
 
 MANIFEST = {
     "level_text": (
-        "Machine-checked proofs (Coq 8.16, 49 theorems, all closed under the global context). (a) The extracted certificate "
+        "Machine-checked proofs (Coq 8.16, 53 theorems, all closed under the global context). (a) The extracted certificate "
         "checker emd_cert_ok is sound for all sizes and inputs: acceptance of (P, Q, C, penalty, d, F, alpha, beta, gamma) "
         "implies that d is exactly the transportation optimum plus penalty*|sum P - sum Q| of the property text (also against "
         "fractional flows) and that F is a feasible integral flow whose cost reproduces d; the value is unique; zero padding "
@@ -820,12 +899,17 @@ MANIFEST = {
         "renaming; that the artificial node is never used (the flag is never set: checked per case, 0 of ~150 000 runs). The "
         "end-to-end statement therefore still rests on the certificate computed inside the algorithm-level model and on the "
         "per-case certificate check of the implementation's output. int is modelled by Z; int32 overflow of the answer is "
-        "excluded by generator bounds. KNOWN FINDING F21 (not excluded, generated in every run, fork-isolated with a timeout): "
-        "with max(C) = 2^31-1 the artificial-arc cost maxC + 1 wraps to INT_MIN and emd_hat_int32 never returns (witness "
-        "emd_hat_int32([1,0],[0,1],[[0,5],[2147483647,0]]), expected 5); a hang is attributed to F21 only by the models "
-        "(max(C) = 2^31-1, the as-written model Model/EmdAsIs.v does not finish, raises the companion flag and moves no supply, "
-        "the exact model returns the certified optimum; kernel-evaluated in C10_artificial_cost_wrap_refuted); any other hang, "
-        "crash or disagreement is a violation."),
+        "excluded by generator bounds. KNOWN FINDINGS, none excluded, all generated in every run in forked processes with a 5 s limit: F25 = int32 "
+        "intermediate overflow in FastEMD although every input entry and the true result fit int32 (wrong distance, flow "
+        "whose cost does not reproduce it, variants disagreeing, or a call that never returns); F21 = its member max(C) = "
+        "2^31-1 (maxC + 1 wraps for the artificial arcs; emd_hat_int32([1,0],[0,1],[[0,5],[2147483647,0]]) never returns, "
+        "expected 5); F26 = SIGSEGV on zero-length histograms with a flow type that returns a flow (NO_FLOW returns 0). "
+        "Attribution is by model, never by a blanket mute: F25 only if the AS-WRITTEN model (Model/EmdW.v: the whole pipeline "
+        "with wrap32 on every int operation) differs from the exact model on that input and reproduces the implementation's "
+        "distance and flow on every variant (or does not finish, for a hang); F21 by the as-written probe; F26 by call site "
+        "(len 0 and the process dies). Everything else that hangs, crashes or disagrees is a violation. The theorems about "
+        "optimality speak about the exact (Z-valued) models; the link 'no intermediate reaches 2^31 => as-written = exact' "
+        "is proved per operation only (C10_no_wrap_below_bound_partial)."),
     "technique": "Coq proof of a certificate checker run on the implementation's output + two executable models (certifying, and line-level with exact flow correspondence) + run-time-checked hypothesis flag",
     "design_ref": "DESIGN.md section 7, C10",
 }
